@@ -126,6 +126,11 @@ func (v Value) Hash() uintptr {
 	if v.scalar != 0 {
 		return goRuntimeInt64Hash(v.scalar, 0)
 	}
+	if c, ok := v.iface.(*Closure); ok {
+		// Distinct closures can be equal (see Equals), in which case they have
+		// the same code, so that is what gets hashed.
+		return goRuntimeEfaceHash(c.Code, 0)
+	}
 	return goRuntimeEfaceHash(v.iface, 0)
 }
 
